@@ -1618,3 +1618,118 @@ func init() {
 			return out
 		}})
 }
+
+// ---- FLAGORDER
+//
+// A masked transform `f` is described by {Decode, Func, Encode}: decode the mask if asked to, apply Func, re-encode if
+// asked to. In every function that applies `t.Func(..)`, a step guarded by `t.Decode` comes before the call and a step
+// guarded by `t.Encode` after it, and a guarded step that calls a Decode*/Encode* routine is guarded by the flag of
+// the same name. GenShare and Transform of a protocol have to agree on this, otherwise the masks of the parties no
+// longer cancel.
+func scanFlagOrder(c *core.Ctx) []ob {
+	var out []ob
+	n := 0
+	c.FuncDecls(func(pk *packages.Package, file *ast.File, fd *ast.FuncDecl) {
+		if fd.Body == nil || fileIsTestSupport(c.Program, fd.Pos()) || inExamples(pk) {
+			return
+		}
+		info := pk.TypesInfo
+		fkey := core.FuncKey(pk, fd)
+		// calls of a field named Func on something that also has Decode and Encode
+		type app struct {
+			base string
+			pos  token.Pos
+		}
+		var apps []app
+		ast.Inspect(fd.Body, func(x ast.Node) bool {
+			call, ok := x.(*ast.CallExpr)
+			if !ok {
+				return true
+			}
+			sel, ok := unparen(call.Fun).(*ast.SelectorExpr)
+			if !ok || sel.Sel.Name != "Func" {
+				return true
+			}
+			st := structOf(info.TypeOf(sel.X))
+			if st == nil {
+				return true
+			}
+			has := map[string]bool{}
+			for i := 0; i < st.NumFields(); i++ {
+				has[st.Field(i).Name()] = true
+			}
+			if has["Decode"] && has["Encode"] {
+				apps = append(apps, app{exprString(sel.X), call.Pos()})
+			}
+			return true
+		})
+		if len(apps) == 0 {
+			return
+		}
+		for _, a := range apps {
+			n++
+			key := fmt.Sprintf("FLAGORDER:%s#%s.Func", fkey, a.base)
+			var bad []string
+			ast.Inspect(fd.Body, func(x ast.Node) bool {
+				is, ok := x.(*ast.IfStmt)
+				if !ok {
+					return true
+				}
+				// the first flag mentioned positively in the condition
+				flag := ""
+				ast.Inspect(is.Cond, func(y ast.Node) bool {
+					if flag != "" {
+						return false
+					}
+					if u, ok := y.(*ast.UnaryExpr); ok && u.Op == token.NOT {
+						return false
+					}
+					if s, ok := y.(*ast.SelectorExpr); ok && exprString(s.X) == a.base && (s.Sel.Name == "Decode" || s.Sel.Name == "Encode") {
+						flag = s.Sel.Name
+					}
+					return true
+				})
+				if flag == "" {
+					return true
+				}
+				// the guarded step contains the application itself (if t != nil { ... }): not a step
+				if is.Body.Pos() <= a.pos && a.pos <= is.Body.End() {
+					return true
+				}
+				if flag == "Decode" && is.Pos() > a.pos {
+					bad = append(bad, fmt.Sprintf("the step guarded by %s.Decode at %s comes after %s.Func", a.base, c.Rel(is.Pos()), a.base))
+				}
+				if flag == "Encode" && is.Pos() < a.pos {
+					bad = append(bad, fmt.Sprintf("the step guarded by %s.Encode at %s comes before %s.Func", a.base, c.Rel(is.Pos()), a.base))
+				}
+				for _, call := range callsIn(is.Body) {
+					nm := calleeName(info, call)
+					for _, w := range []string{"Decode", "Encode"} {
+						if strings.HasPrefix(nm, w) && w != flag {
+							bad = append(bad, fmt.Sprintf("%s is called under %s.%s at %s", nm, a.base, flag, c.Rel(call.Pos())))
+						}
+					}
+				}
+				return true
+			})
+			props := []string{"C16"}
+			if len(bad) == 0 {
+				out = append(out, withProps(okOb("FLAGORDER", key, c.Rel(a.pos), "decode step before, encode step after the transform, each under its own flag", true), props...))
+			} else {
+				out = append(out, withProps(violOb("FLAGORDER", key, c.Rel(a.pos), fmt.Sprintf("%s: %s — the share generation and the final transform no longer apply the same decode/encode steps, so the parties' masks do not cancel when Decode != Encode", fkey, strings.Join(bad, "; "))), props...))
+			}
+		}
+	})
+	c.Stats["flagorder_sites"] = n
+	return out
+}
+
+func init() {
+	core.Register(&core.Rule{Name: "FLAGORDER", Props: []string{"C16"},
+		Doc: "where a masked transform {Decode, Func, Encode} is applied, the Decode-guarded step precedes Func, the Encode-guarded step follows it, and Decode*/Encode* routines are called under the flag of the same name",
+		Run: func(c *core.Ctx) []ob {
+			out := scanFlagOrder(c)
+			out = append(out, core.Floor("FLAGORDER", nil, "applications of a masked transform", c.Stats["flagorder_sites"], 3)...)
+			return out
+		}})
+}
